@@ -132,6 +132,16 @@ func indexCatalogHook(fields []string) sm.Hook {
 						&cs.Query{Coll: n, Crit: &cs.Crit{Op: "lte", Field: f, Arg: &a}, SortSet: true, Sort: []cs.SortOpt{{Field: f, Dir: -1}}},
 						&cs.Query{Coll: n, Crit: &cs.Crit{Op: "eq", Field: f, Arg: &a}})
 				}
+				if pivot != nil {
+					// criteria served by this index while the sort names another indexed field
+					for j, g := range c.IndexNames() {
+						if g == f || j > 3 {
+							continue
+						}
+						a := cs.Lit(pivot)
+						qs = append(qs, &cs.Query{Coll: n, Crit: &cs.Crit{Op: "gte", Field: f, Arg: &a}, SortSet: true, Sort: []cs.SortOpt{{Field: g, Dir: 1 - 2*(j%2)}}})
+					}
+				}
 				for _, q := range qs {
 					res := run.Exec(s.H.DB, &cs.Op{Kind: "find", Q: q})
 					if res.Err != "" {
